@@ -207,12 +207,12 @@ Proof.
 Qed.
 
 (* the code as found: the front's own push, issued before its response, arrives after it *)
-Definition f8_log : qmap := [(0, [mkItem 0 1 KPush 1 0; mkItem 0 1 KResp 1 0])].
+Definition f8_log : qmap := [(0, [mkItem 0 1 KPush 1 0 0; mkItem 0 1 KResp 1 0 0])].
 Definition f8_sched : list label := [LIssue 0; LIssue 0; LProcess; LWrite 1; LWrite 1].
 
 Lemma frontlocal_unfixed_refuted :
   owned_logs f8_log /\
-  lookup (got (run_sched false (start f8_log) f8_sched)) 1 = [mkItem 0 1 KResp 1 0; mkItem 0 1 KPush 1 0] /\
+  lookup (got (run_sched false (start f8_log) f8_sched)) 1 = [mkItem 0 1 KResp 1 0 0; mkItem 0 1 KPush 1 0 0] /\
   proj 0 1 (lookup (got (run_sched false (start f8_log) f8_sched)) 1) <> proj 0 1 (lookup f8_log 0).
 Proof.
   split; [|split].
@@ -253,3 +253,68 @@ Lemma order_per_request fixed logs sched i c t :
   drained (run_sched fixed (start logs) sched) ->
   proj3 i c t (lookup (got (run_sched fixed (start logs) sched)) c) = proj3 i c t (lookup logs i).
 Proof. intros O CV D. rewrite !proj3_proj, (order_complete fixed logs sched i c O CV D). reflexivity. Qed.
+
+(* ---------- sizes (and any other payload data) do not influence the order ---------- *)
+
+Section Relabel.
+  Variable h : item -> item.
+  Hypothesis h_iss : forall x, it_iss (h x) = it_iss x.
+  Hypothesis h_conn : forall x, it_conn (h x) = it_conn x.
+  Hypothesis h_kind : forall x, it_kind (h x) = it_kind x.
+
+  Definition mapq (m : qmap) : qmap := map (fun kv => (fst kv, map h (snd kv))) m.
+
+  Definition map_st (s : st) : st :=
+    mkSt (mapq (pend s)) (map h (mbox s)) (mapq (chs s)) (mapq (got s)).
+
+  Lemma lookup_mapq k m : lookup (mapq m) k = map h (lookup m k).
+  Proof.
+    unfold lookup. induction m as [|[k0 v0] r IH]; simpl; [reflexivity|].
+    destruct (Z.eqb k k0); [reflexivity | exact IH].
+  Qed.
+
+  Lemma aset_mapq k v m : aset k (map h v) (mapq m) = mapq (aset k v m).
+  Proof.
+    induction m as [|[k0 v0] r IH]; simpl; [reflexivity|].
+    destruct (Z.ltb k k0); [reflexivity|]. destruct (Z.eqb k k0); [reflexivity|].
+    simpl. rewrite IH. reflexivity.
+  Qed.
+
+  Lemma enq_mapq m k x : enq (mapq m) k (h x) = mapq (enq m k x).
+  Proof. unfold enq. rewrite lookup_mapq, <- aset_mapq, map_app. reflexivity. Qed.
+
+  Lemma direct_h fixed x : direct fixed (h x) = direct fixed x.
+  Proof. unfold direct. rewrite h_iss, h_kind. reflexivity. Qed.
+
+  Lemma step_map fixed s l : step fixed (map_st s) l = map_st (step fixed s l).
+  Proof.
+    destruct l as [i| |c]; simpl.
+    - rewrite lookup_mapq. destruct (lookup (pend s) i) as [|x r]; simpl; [reflexivity|].
+      rewrite direct_h. destruct (direct fixed x); unfold map_st; simpl.
+      + rewrite h_conn, enq_mapq, aset_mapq. reflexivity.
+      + rewrite aset_mapq, map_app. reflexivity.
+    - destruct (mbox s) as [|x r]; simpl; [reflexivity|].
+      unfold map_st. simpl. rewrite h_conn, enq_mapq. reflexivity.
+    - rewrite lookup_mapq. destruct (lookup (chs s) c) as [|x r]; simpl; [reflexivity|].
+      unfold map_st. simpl. rewrite enq_mapq, aset_mapq. reflexivity.
+  Qed.
+
+  Lemma run_map fixed sched : forall s,
+    run_sched fixed (map_st s) sched = map_st (run_sched fixed s sched).
+  Proof.
+    induction sched as [|l r IH]; intro s; simpl; [reflexivity|].
+    rewrite step_map. apply IH.
+  Qed.
+End Relabel.
+
+(* give every item the size [f] says *)
+Definition resize (f : item -> Z) (x : item) : item :=
+  mkItem (it_iss x) (it_conn x) (it_kind x) (it_tag x) (it_seq x) (f x).
+
+Theorem size_independent fixed logs sched (f : item -> Z) :
+  run_sched fixed (start (mapq (resize f) logs)) sched =
+  map_st (resize f) (run_sched fixed (start logs) sched).
+Proof.
+  change (start (mapq (resize f) logs)) with (map_st (resize f) (start logs)).
+  apply run_map; intro x; reflexivity.
+Qed.
